@@ -13,6 +13,7 @@ from collections.abc import Mapping
 # Cases are JSON documents; values that JSON cannot carry are tagged:
 #   {"$tuple": [...]}  {"$bytes": [ints]}  {"$slice": [a,b,c]}  {"$gen": [...]}
 #   {"$self": true}    {"$big": n}  (10**n)   {"$aux": value} (another synced object)
+#   {"$node": path}   the nested container at that path of the same document (a synced node / a model copy)
 #   {"$bad": kind}     an item the collection must reject (C11), see gen.BAD_KINDS
 #   {"$kdict": [[key, value], ...]}  a dict whose keys need not be strings
 
@@ -62,36 +63,40 @@ def make_bad(kind):
     raise ValueError(kind)
 
 
-def decode(x, self_obj=None, aux=None):
+def decode(x, self_obj=None, aux=None, node=None):
     """Turn a tagged JSON argument into the Python value handed to an operation."""
     if isinstance(x, list):
-        return [decode(v, self_obj, aux) for v in x]
+        return [decode(v, self_obj, aux, node) for v in x]
     if isinstance(x, dict):
         if len(x) == 1:
             (tag, v), = x.items()
             if tag == "$tuple":
-                return tuple(decode(i, self_obj, aux) for i in v)
+                return tuple(decode(i, self_obj, aux, node) for i in v)
             if tag == "$bytes":
                 return bytes(v)
             if tag == "$slice":
                 return slice(*v)
             if tag == "$gen":
-                return (decode(i, self_obj, aux) for i in v)
+                return (decode(i, self_obj, aux, node) for i in v)
             if tag == "$self":
                 return self_obj
             if tag == "$big":
                 return 10 ** v
             if tag == "$neg":
-                return -decode(v, self_obj, aux)
+                return -decode(v, self_obj, aux, node)
             if tag == "$aux":
                 return aux(v)
+            if tag == "$node":
+                # the container at absolute path v of the same document: on the library side the synced node
+                # itself (the value handed to a mutator is an existing nested collection), on the model side a copy
+                return node(v)
             if tag == "$bad":
                 return make_bad(v)
             if tag == "$kdict":
-                return {decode_key(k): decode(val, self_obj, aux) for k, val in v}
+                return {decode_key(k): decode(val, self_obj, aux, node) for k, val in v}
             if tag == "$float":
                 return float(v)
-        return {k: decode(v, self_obj, aux) for k, v in x.items()}
+        return {k: decode(v, self_obj, aux, node) for k, v in x.items()}
     return x
 
 
